@@ -7,6 +7,7 @@ MODEL_FN = 'Model/NFv5.v:decode_v5'
 RULE = ('stream wf: header with arbitrary (boundary-biased) field values and 0..30 records, count=len; '
         'stream trunc: k in 0..5 complete records + partial record of 0..47 bytes, count in {k,k+1,k+30,65535}; '
         'sweep: k in 0..4 records x every truncation point x count in {0..k+2,30,65535} (exhaustive); '
+        'degenerate: well-formed datagrams whose records are all zero, all ones or have a single field set, among ordinary ones, judged by the oracle (exactly the records present, byte for byte); '
         'mutants: seeded byte-level mutations (truncate, flip, hostile 16/32-bit values, delete, duplicate, append). '
         'non-trivial = decodes (per expected/model observation) to at least one record; distinct by input bytes')
 TRUSTED = ['Coq 8.16.1 kernel (coqc), vm_compute in Examples only',
@@ -90,6 +91,32 @@ def run(chk):
     chk.exhaustive.append('k in 0..4 records x all truncation points x count in {0..k+2,30,65535}: %d cases' % len(lines))
     # the oracle also judges every sweep case on the implementation directly
     resolve_scope_b(chk, sys.modules[__name__], bad, 'sweep', MATCHERS, oracle, STREAMS)
+    # degenerate record contents: all-zero records, all-ones records, records with a single non-zero field, between
+    # and around ordinary ones -- a record is a record whatever it holds (padding-looking records are not dropped)
+    rng = random.Random(chk.seed * 31 + 55)
+    ws = [4, 4, 4, 2, 2, 4, 4, 4, 4, 2, 2, 1, 1, 1, 1, 2, 2, 1, 1, 2]
+    special = [bytes(48), b'\xff' * 48]
+    off = 0
+    for w in ws:
+        special.append(bytes(off) + b'\x01' * w + bytes(48 - off - w))
+        off += w
+    deg = []
+    for k in (1, 2, 3, 5):
+        for _ in range(dict(quick=60, thorough=600)[chk.tier]):
+            recs = [rng.choice(special) if rng.random() < 0.6 else bytes(rng.randrange(256) for _ in range(48)) for _ in range(k)]
+            hdr = b'\x00\x05' + k.to_bytes(2, 'big') + bytes(rng.randrange(256) for _ in range(20))
+            deg.append('v5 =' + (hdr + b''.join(recs)).hex())
+    for i in range(len(special)):
+        deg.append('v5 =' + (b'\x00\x05\x00\x03' + bytes(20) + special[i] + bytes(48) + special[(i + 1) % len(special)]).hex())
+    bad = run_scope_b(chk, sys.modules[__name__], deg, 'degenerate-records', MATCHERS)
+    # these are well-formed datagrams: the oracle (exactly the records present, byte for byte) judges the implementation
+    import engine as _e
+    idg = _e.impl_run(chk.harness, deg)
+    for a, o in zip(deg, idg):
+        if oracle(a, o) is False:
+            chk.record('scopeA-degenerate', dict(concrete=True, input=a, impl=o[:1500],
+                       what='a well-formed v5 datagram with all-zero / all-ones / single-field records did not decode to exactly the records present'), {})
+    resolve_scope_b(chk, sys.modules[__name__], bad, 'degenerate-records', MATCHERS, oracle, STREAMS)
     # mutants
     rng = random.Random(chk.seed * 31 + 5)
     nm = dict(quick=3000, thorough=60000)[chk.tier]
